@@ -153,19 +153,41 @@ class RegexVM:
     def _execute(
         self, string: str, start_pos: int, anchored: bool
     ) -> Optional[MatchResult]:
-        """
-        Execute bytecode against string.
-
-        This is the main execution loop.
-        """
-        # Execution state
-        pc = 0  # Program counter
-        sp = start_pos  # String position
-        step_count = 0
-
+        """Try to match the whole pattern at start_pos."""
         # Capture positions: list of (start, end) for each group
         # -1 means unset
         captures = [[-1, -1] for _ in range(self.capture_count)]
+        outcome = self._run(string, 0, start_pos, captures)
+        if outcome is None:
+            return None
+        _, captures = outcome
+        groups = []
+        for start, end in captures:
+            if start == -1 or end == -1:
+                groups.append(None)
+            else:
+                groups.append(string[start:end])
+        return MatchResult(groups, captures[0][0], string)
+
+    def _run(
+        self,
+        string: str,
+        pc: int,
+        sp: int,
+        captures: List[List[int]],
+        must_end_at: Optional[int] = None,
+    ) -> Optional[Tuple[int, List[List[int]]]]:
+        """
+        Execute bytecode against string.
+
+        This is the execution loop, for the whole pattern (from pc 0 to MATCH)
+        and for the body of a lookahead or lookbehind (from the instruction
+        after the assertion to its LOOKAHEAD_END/LOOKBEHIND_END). Returns the
+        end position and the captures of the first alternative that gets there
+        (for a lookbehind: that gets there at must_end_at), or None.
+        """
+        # Execution state
+        step_count = 0
 
         # Registers for position tracking (ReDoS protection)
         registers: List[int] = []
@@ -504,19 +526,11 @@ class RegexVM:
 
             elif opcode == Op.LOOKAHEAD:
                 end_offset = instr[1]
-                # Save current state and try to match lookahead
-                saved_sp = sp
-                saved_captures = [c.copy() for c in captures]
-
-                # Create sub-execution for lookahead, passing current captures
-                la_captures = self._execute_lookahead(
-                    string, sp, pc + 1, end_offset, captures
-                )
-
-                if la_captures is not None:
-                    # Lookahead succeeded - restore position but keep captures from lookahead
-                    sp = saved_sp
-                    captures = la_captures  # Use captures from lookahead
+                # Match the body at the current position; captures made inside
+                # a successful lookahead are kept, the position is not
+                inner = self._run(string, pc + 1, sp, [c.copy() for c in captures])
+                if inner is not None:
+                    captures = inner[1]
                     pc = end_offset
                 else:
                     # Lookahead failed
@@ -526,17 +540,9 @@ class RegexVM:
 
             elif opcode == Op.LOOKAHEAD_NEG:
                 end_offset = instr[1]
-                saved_sp = sp
-                saved_captures = [c.copy() for c in captures]
-
-                la_captures = self._execute_lookahead(
-                    string, sp, pc + 1, end_offset, captures
-                )
-
-                if la_captures is None:
+                inner = self._run(string, pc + 1, sp, [c.copy() for c in captures])
+                if inner is None:
                     # Negative lookahead succeeded (inner didn't match)
-                    sp = saved_sp
-                    captures = saved_captures  # Keep original captures
                     pc = end_offset
                 else:
                     # Negative lookahead failed (inner matched)
@@ -546,20 +552,14 @@ class RegexVM:
 
             elif opcode == Op.LOOKAHEAD_END:
                 # Successfully matched lookahead content
-                return MatchResult([], 0, "")  # Special marker
+                return sp, captures
 
             elif opcode == Op.LOOKBEHIND:
                 end_offset = instr[1]
-                saved_sp = sp
-                saved_captures = [c.copy() for c in captures]
-
-                # Try lookbehind - match pattern ending at current position
-                lb_result = self._execute_lookbehind(string, sp, pc + 1, end_offset)
-
-                if lb_result:
-                    # Lookbehind succeeded - restore position and continue after
-                    sp = saved_sp
-                    captures = saved_captures
+                # Match the body so that it ends at the current position
+                inner = self._run_lookbehind(string, sp, pc + 1, captures)
+                if inner is not None:
+                    captures = inner[1]
                     pc = end_offset
                 else:
                     # Lookbehind failed
@@ -569,15 +569,9 @@ class RegexVM:
 
             elif opcode == Op.LOOKBEHIND_NEG:
                 end_offset = instr[1]
-                saved_sp = sp
-                saved_captures = [c.copy() for c in captures]
-
-                lb_result = self._execute_lookbehind(string, sp, pc + 1, end_offset)
-
-                if not lb_result:
+                inner = self._run_lookbehind(string, sp, pc + 1, captures)
+                if inner is None:
                     # Negative lookbehind succeeded (inner didn't match)
-                    sp = saved_sp
-                    captures = saved_captures
                     pc = end_offset
                 else:
                     # Negative lookbehind failed (inner matched)
@@ -586,7 +580,13 @@ class RegexVM:
                     pc, sp, captures, registers = self._backtrack(stack)
 
             elif opcode == Op.LOOKBEHIND_END:
-                return MatchResult([], 0, "")  # Special marker
+                if must_end_at is not None and sp != must_end_at:
+                    # Matched, but not up to the position of the assertion
+                    if not stack:
+                        return None
+                    pc, sp, captures, registers = self._backtrack(stack)
+                    continue
+                return sp, captures
 
             elif opcode == Op.SET_POS:
                 reg_idx = instr[1]
@@ -620,16 +620,26 @@ class RegexVM:
 
             elif opcode == Op.MATCH:
                 # Successful match!
-                groups = []
-                for start, end in captures:
-                    if start == -1 or end == -1:
-                        groups.append(None)
-                    else:
-                        groups.append(string[start:end])
-                return MatchResult(groups, captures[0][0], string)
+                return sp, captures
 
             else:
                 raise RuntimeError(f"Unknown opcode: {opcode}")
+
+    def _run_lookbehind(
+        self, string: str, end_pos: int, start_pc: int, captures: List[List[int]]
+    ) -> Optional[Tuple[int, List[List[int]]]]:
+        """Match a lookbehind body so that it ends at end_pos.
+
+        Every start position is tried, nearest first; captures made by the
+        body are kept when it matches.
+        """
+        for start_pos in range(end_pos, -1, -1):
+            inner = self._run(
+                string, start_pc, start_pos, [c.copy() for c in captures], end_pos
+            )
+            if inner is not None:
+                return inner
+        return None
 
     def _backtrack(self, stack: List[Tuple]) -> Tuple:
         """Pop and return state from backtrack stack."""
@@ -644,242 +654,3 @@ class RegexVM:
         before = pos > 0 and is_word_char(string[pos - 1])
         after = pos < len(string) and is_word_char(string[pos])
         return before != after
-
-    def _execute_lookahead(
-        self,
-        string: str,
-        start_pos: int,
-        start_pc: int,
-        end_pc: int,
-        input_captures: List[List[int]],
-    ) -> Optional[List[List[int]]]:
-        """Execute bytecode for lookahead assertion.
-
-        Returns the captures list if lookahead succeeds, None if it fails.
-        This preserves captures made inside the lookahead.
-        """
-        # Start with a copy of input captures to preserve outer captures
-        pc = start_pc
-        sp = start_pos
-        captures = [c.copy() for c in input_captures]
-        registers: List[int] = []
-        stack: List[Tuple] = []
-        step_count = 0
-
-        while True:
-            step_count += 1
-            if step_count % self.poll_interval == 0:
-                if self.poll_callback and self.poll_callback():
-                    raise RegexTimeoutError("Regex execution timed out")
-
-            # Same hard step limit as the main matcher (ReDoS protection)
-            if step_count > self.step_limit:
-                return None
-
-            if len(stack) > self.stack_limit:
-                raise RegexStackOverflow("Regex stack overflow")
-
-            if pc >= end_pc:
-                return None
-
-            instr = self.bytecode[pc]
-            opcode = instr[0]
-
-            if opcode == Op.LOOKAHEAD_END:
-                return captures  # Return captures made inside lookahead
-
-            # Handle SAVE_START/SAVE_END to capture groups inside lookahead
-            if opcode == Op.SAVE_START:
-                group_idx = instr[1]
-                if group_idx < len(captures):
-                    captures[group_idx][0] = sp
-                pc += 1
-
-            elif opcode == Op.SAVE_END:
-                group_idx = instr[1]
-                if group_idx < len(captures):
-                    captures[group_idx][1] = sp
-                pc += 1
-
-            elif opcode == Op.CHAR:
-                char_code = instr[1]
-                if sp >= len(string):
-                    if not stack:
-                        return None
-                    pc, sp, captures, registers = stack.pop()
-                    continue
-                ch = string[sp]
-                if self.ignorecase:
-                    match = ord(ch.lower()) == char_code or ord(ch.upper()) == char_code
-                else:
-                    match = ord(ch) == char_code
-                if match:
-                    sp += 1
-                    pc += 1
-                else:
-                    if not stack:
-                        return None
-                    pc, sp, captures, registers = stack.pop()
-
-            elif opcode == Op.DOT:
-                if sp >= len(string) or string[sp] == "\n":
-                    if not stack:
-                        return None
-                    pc, sp, captures, registers = stack.pop()
-                    continue
-                sp += 1
-                pc += 1
-
-            elif opcode == Op.SPLIT_FIRST:
-                alt_pc = instr[1]
-                stack.append(
-                    (alt_pc, sp, [c.copy() for c in captures], registers.copy())
-                )
-                pc += 1
-
-            elif opcode == Op.SPLIT_NEXT:
-                alt_pc = instr[1]
-                stack.append(
-                    (pc + 1, sp, [c.copy() for c in captures], registers.copy())
-                )
-                pc = alt_pc
-
-            elif opcode == Op.JUMP:
-                pc = instr[1]
-
-            elif opcode == Op.MATCH:
-                return captures
-
-            else:
-                # Handle other opcodes similarly to main loop
-                pc += 1
-
-    def _execute_lookbehind(
-        self, string: str, end_pos: int, start_pc: int, end_pc: int
-    ) -> bool:
-        """Execute bytecode for lookbehind assertion.
-
-        Lookbehind matches if the pattern matches text ending at end_pos.
-        We try all possible start positions backwards from end_pos.
-        """
-        # Try all possible starting positions from 0 to end_pos
-        # We want the pattern to match and end exactly at end_pos
-        for start_pos in range(end_pos, -1, -1):
-            result = self._try_lookbehind_at(
-                string, start_pos, end_pos, start_pc, end_pc
-            )
-            if result:
-                return True
-        return False
-
-    def _try_lookbehind_at(
-        self, string: str, start_pos: int, end_pos: int, start_pc: int, end_pc: int
-    ) -> bool:
-        """Try to match lookbehind pattern from start_pos, checking it ends at end_pos."""
-        pc = start_pc
-        sp = start_pos
-        captures = [[-1, -1] for _ in range(self.capture_count)]
-        registers: List[int] = []
-        stack: List[Tuple] = []
-        step_count = 0
-
-        while True:
-            step_count += 1
-            if step_count % self.poll_interval == 0:
-                if self.poll_callback and self.poll_callback():
-                    raise RegexTimeoutError("Regex execution timed out")
-
-            # Same hard step limit as the main matcher (ReDoS protection)
-            if step_count > self.step_limit:
-                return False
-
-            if len(stack) > self.stack_limit:
-                raise RegexStackOverflow("Regex stack overflow")
-
-            if pc >= end_pc:
-                return False
-
-            instr = self.bytecode[pc]
-            opcode = instr[0]
-
-            if opcode == Op.LOOKBEHIND_END:
-                # Check if we ended exactly at the target position
-                return sp == end_pos
-
-            if opcode == Op.CHAR:
-                char_code = instr[1]
-                if sp >= len(string):
-                    if not stack:
-                        return False
-                    pc, sp, captures, registers = stack.pop()
-                    continue
-                ch = string[sp]
-                if self.ignorecase:
-                    match = ord(ch.lower()) == char_code or ord(ch.upper()) == char_code
-                else:
-                    match = ord(ch) == char_code
-                if match:
-                    sp += 1
-                    pc += 1
-                else:
-                    if not stack:
-                        return False
-                    pc, sp, captures, registers = stack.pop()
-
-            elif opcode == Op.DOT:
-                if sp >= len(string) or string[sp] == "\n":
-                    if not stack:
-                        return False
-                    pc, sp, captures, registers = stack.pop()
-                    continue
-                sp += 1
-                pc += 1
-
-            elif opcode == Op.DIGIT:
-                if sp >= len(string) or not _is_digit(string[sp]):
-                    if not stack:
-                        return False
-                    pc, sp, captures, registers = stack.pop()
-                    continue
-                sp += 1
-                pc += 1
-
-            elif opcode == Op.WORD:
-                if sp >= len(string):
-                    if not stack:
-                        return False
-                    pc, sp, captures, registers = stack.pop()
-                    continue
-                ch = string[sp]
-                if _is_word(ch):
-                    sp += 1
-                    pc += 1
-                else:
-                    if not stack:
-                        return False
-                    pc, sp, captures, registers = stack.pop()
-
-            elif opcode == Op.SPLIT_FIRST:
-                alt_pc = instr[1]
-                stack.append(
-                    (alt_pc, sp, [c.copy() for c in captures], registers.copy())
-                )
-                pc += 1
-
-            elif opcode == Op.SPLIT_NEXT:
-                alt_pc = instr[1]
-                stack.append(
-                    (pc + 1, sp, [c.copy() for c in captures], registers.copy())
-                )
-                pc = alt_pc
-
-            elif opcode == Op.JUMP:
-                pc = instr[1]
-
-            elif opcode == Op.MATCH:
-                # Check if we ended exactly at the target position
-                return sp == end_pos
-
-            else:
-                # Handle other opcodes - advance pc
-                pc += 1
